@@ -77,6 +77,31 @@ def kahn(choices):
     return sorter
 
 
+def check_rank_production(order, part_ir, where, det):
+    """
+    A dependence the graph may have forgotten, derived from the partitioning alone: a statement that consumes rank R of
+    tensor T (a swizzle to an order naming R, a partitioning of R) must come after the statement that produces R for T
+    (the partitioning of R's source rank(s)).
+    """
+    from teaal.ir.flow_nodes import PartNode, SwizzleNode
+    producers = {}
+    for i, n in enumerate(order):
+        if isinstance(n, PartNode):
+            try:
+                made = set(part_ir.partition_names(tuple(n.get_ranks()), False)) | set(part_ir.partition_names(tuple(n.get_ranks()), True))
+            except Exception:
+                continue
+            for r in made - set(n.get_ranks()):
+                producers.setdefault((n.get_tensor(), r), []).append(i)
+    for i, n in enumerate(order):
+        if isinstance(n, (PartNode, SwizzleNode)):
+            for r in n.get_ranks():
+                ps = producers.get((n.get_tensor(), r))
+                if ps and min(ps) > i:
+                    raise Violation("%s: %r uses rank %s of %s at position %d, before the statement that creates that rank (position %d)"
+                                    % (where, n, r, n.get_tensor(), i, min(ps)), sig="rank-used-before-produced", details=det)
+
+
 def check_order(graph, order, loop_ranks, where, det):
     from teaal.ir.flow_nodes import LoopNode, EndLoopNode, OtherNode
     import networkx as nx
@@ -150,6 +175,7 @@ def explore(yaml_text, metrics_mode, choices, det):
                 loop_ranks = prog.get_loop_order().get_ranks()
                 where = "Einsum %d, %s tie-breaks" % (i, "drawn" if patched else "default")
                 between += check_order(fg.get_graph(), fg.get_sorted(), loop_ranks, where, det)
+                check_rank_production(fg.get_sorted(), prog.get_partitioning(), where, det)
                 prog.reset()
         except ValueError as ex:
             raise Skip("rejected_by_compiler", str(ex)[:80])
